@@ -421,6 +421,22 @@ def canon_expected(s):
                     inner = repl + s[i + len(head):c]
                     s = s[:i] + (("Not(" + inner + ")") if neg else inner) + s[c + 1:]
                     changed = True
+        i = s.find("Not(let ")
+        if i >= 0:
+            c = _scan_close(s, i + 3, "(", ")")
+            if c > 0:
+                s = s[:i] + "!" + s[i + 4:c] + s[c + 1:]
+                changed = True
+        i = s.find("if(!let ")
+        if i >= 0:
+            c0 = _scan_close(s, i + 2, "(", ")")
+            if c0 > 0 and s[c0 + 1:c0 + 2] == "{":
+                t1 = _scan_close(s, c0 + 1, "{", "}")
+                if t1 > 0 and s[t1 + 1:t1 + 6] == "else{":
+                    e1 = _scan_close(s, t1 + 5, "{", "}")
+                    if e1 > 0:
+                        s = s[:i] + "if(" + s[i + 4:c0] + "){" + s[t1 + 6:e1] + "}else{" + s[c0 + 2:t1] + "}" + s[e1 + 1:]
+                        changed = True
         i = s.find("Not(Not(")
         if i >= 0:
             c = _scan_close(s, i + 3, "(", ")")
